@@ -255,3 +255,14 @@ def run(res: Results, idx: Index, tier: str) -> None:
     run_generic_batchers(res, idx, tier)
     run_param_fallbacks(res, idx)
     run_forwarded_rule_params(res, idx)
+    # vmap of lax.while_loop: the batched predicate is carried through the Loop and every body output is masked with Where so
+    # that finished examples keep their state.  The next predicate must be evaluated on the MASKED state (C06 R-C06f): on
+    # the raw body outputs a finished example is judged on body(final_state) and can be revived.
+    from . import c06
+    res.rule("R-C10i", "vmapped while_loop: the next predicate is evaluated on the masked (carried) state (C06 R-C06f)", floor=1)
+    sub6 = Results("C06", tier)
+    setattr(sub6, "_nested_xref", True)
+    c06.rule_f(sub6, idx)
+    for inst in sub6.instances:
+        if inst.rule == "R-C06f":
+            res.add("R-C10i", inst.status, inst.site, f"R-C06f::{inst.key}", f"[C06 R-C06f] {inst.detail}", inst.func)
